@@ -1,4 +1,5 @@
 import TrucModel.Proofs.BuilderProps
+import TrucModel.Proofs.SizeOrder
 import TrucModel.Props.Examples
 /-
   C19 — The same definition history always generates byte-identical code.
@@ -19,6 +20,20 @@ theorem C19_layout_is_function_partial (reqs₁ reqs₂ : List Req) (h : reqs₁
     order inside one size class — no dependence on anything but the list -/
 theorem C19_size_order_stable (defs : Defs) (add : List Nat) : (sortBySizeDesc defs add).Perm add :=
   sortBySizeDesc_perm defs add
+
+/-- … and it is exactly the traversal the comment above describes, determined by the list alone: the
+    result is ordered by decreasing size, and for every size `k` the data of size `k` appear in it in
+    the order in which they were requested (stability) — together with `C19_size_order_stable` this
+    pins the traversal down uniquely, so nothing a process could vary (map iteration order, addresses,
+    hash seeds) can enter the layout through it -/
+theorem C19_size_order_sorted_and_stable (defs : Defs) (add : List Nat) :
+    (sortBySizeDesc defs add).Pairwise (fun a b => sz defs b ≤ sz defs a) ∧
+    ∀ k, (sortBySizeDesc defs add).filter (fun d => sz defs d = k) = add.filter (fun d => sz defs d = k) :=
+  ⟨sortBySizeDesc_sorted defs add, sortBySizeDesc_stable defs add⟩
+
+/-- non-vacuity: four data of sizes 2, 8, 2, 8 come out as 8, 8, 2, 2 with request order kept inside each size -/
+example : sortBySizeDesc [⟨"a", "u16", 2, 2, 0, false⟩, ⟨"b", "u64", 8, 8, 0, false⟩, ⟨"c", "u16", 2, 2, 0, false⟩,
+    ⟨"d", "u64", 8, 8, 0, false⟩] [0, 1, 2, 3] = [1, 3, 0, 2] := by decide +kernel
 
 example : (run Ex.h1).variants.length = 3 := by decide +kernel
 
